@@ -671,5 +671,768 @@ theorem step_spec {w n j : Nat} (hw : 1 ≤ w) (hn2 : 2 ≤ n)
     · rw [hqh] at hs2; omega
 
 
+
+
+theorem WF_uncons {w L : Nat} {x : List Nat} (h : WF w (L + 1) x) :
+    ∃ d t, x = d :: t ∧ d < B w ∧ WF w L t := by
+  match x, h with
+  | d :: t, h => exact ⟨d, t, rfl, (WF_cons.mp h).1, (WF_cons.mp h).2⟩
+  | [], h => exact absurd h.1 (by simp)
+
+/-- cut the `n+1`-digit window at position `j` out of the remainder -/
+theorem split_window {w L j n : Nat} {u : List Nat} (hu : WF w L u) (hL : j + n + 1 ≤ L)
+    (hn2 : 2 ≤ n) :
+    ∃ lo wlo x2 x1 x0 hi, u = lo ++ (wlo ++ [x2, x1, x0]) ++ hi ∧ WF w j lo ∧
+      WF w (n - 2) wlo ∧ x2 < B w ∧ x1 < B w ∧ x0 < B w ∧ WF w (L - j - n - 1) hi := by
+  have h1 := WF_take hu j (by omega)
+  have h2 := WF_drop hu j
+  have h3 := WF_take h2 (n - 2) (by omega)
+  have h4 := WF_drop h2 (n - 2)
+  obtain ⟨x2, t2, e2, hx2, ht2⟩ := WF_uncons (w := w) (L := L - j - (n - 2) - 1)
+    (x := (u.drop j).drop (n - 2)) (by rwa [show L - j - (n - 2) - 1 + 1 = L - j - (n - 2) by omega])
+  obtain ⟨x1, t1, e1, hx1, ht1⟩ := WF_uncons (w := w) (L := L - j - (n - 2) - 2)
+    (x := t2) (by rwa [show L - j - (n - 2) - 2 + 1 = L - j - (n - 2) - 1 by omega])
+  obtain ⟨x0, t0, e0, hx0, ht0⟩ := WF_uncons (w := w) (L := L - j - n - 1)
+    (x := t1) (by rwa [show L - j - n - 1 + 1 = L - j - (n - 2) - 2 by omega])
+  refine ⟨u.take j, (u.drop j).take (n - 2), x2, x1, x0, t0, ?_, h1, h3, hx2, hx1, hx0, ht0⟩
+  have : u = u.take j ++ ((u.drop j).take (n - 2) ++ (u.drop j).drop (n - 2)) := by
+    rw [List.take_append_drop, List.take_append_drop]
+  conv_lhs => rw [this, e2, e1, e0]
+  simp [List.append_assoc]
+
+theorem set_append_cons (l1 l2 : List Nat) (a b : Nat) :
+    (l1 ++ a :: l2).set l1.length b = l1 ++ b :: l2 := by
+  induction l1 with
+  | nil => rfl
+  | cons d ds ih => simp [ih]
+
+theorem zero_succ (c : Nat) : zero (c + 1) = zero c ++ [0] := by
+  unfold zero; exact List.replicate_succ'
+
+theorem U_zero_append (w c : Nat) (x : List Nat) : U w (zero c ++ x) = B w ^ c * U w x := by
+  rw [U_append, U_zero]; simp [zero]
+
+/-- the invariant of the `while j > 0` loop (D2–D7) -/
+theorem loop_spec {w n N : Nat} (hw : 1 ≤ w) (hn2 : 2 ≤ n)
+    {vlo vz : List Nat} {v1 v2 : Nat} (hvlo : WF w (n - 2) vlo) (hv1 : v1 < B w) (hv2 : v2 < B w)
+    (hvz : ∀ d ∈ vz, d = 0) (hnorm : B w ≤ 2 * v1) (A : Nat) :
+    ∀ (c : Nat) (u q : List Nat), c + n ≤ N + 1 → WF w (N + 1) u →
+      (∃ qhi, q = zero c ++ qhi ∧ WF w (N - c) qhi) →
+      U w u < U w (vlo ++ [v2, v1]) * B w ^ c →
+      A = U w q * U w (vlo ++ [v2, v1]) + U w u →
+      WF w N (loop w n ((vlo ++ [v2, v1]) ++ vz) v1 v2 c u q).2 ∧
+      WF w (N + 1) (loop w n ((vlo ++ [v2, v1]) ++ vz) v1 v2 c u q).1 ∧
+      U w (loop w n ((vlo ++ [v2, v1]) ++ vz) v1 v2 c u q).1 < U w (vlo ++ [v2, v1]) ∧
+      A = U w (loop w n ((vlo ++ [v2, v1]) ++ vz) v1 v2 c u q).2 * U w (vlo ++ [v2, v1])
+          + U w (loop w n ((vlo ++ [v2, v1]) ++ vz) v1 v2 c u q).1 := by
+  have hB := B_pos w
+  have hvm : WF w n (vlo ++ [v2, v1]) := by
+    have h2 : WF w 2 [v2, v1] := ⟨rfl, by simp; exact ⟨hv2, hv1⟩⟩
+    have := WF_append hvlo h2
+    rwa [show n - 2 + 2 = n by omega] at this
+  have hVlt : U w (vlo ++ [v2, v1]) < B w ^ n := by rw [pow_eq_M]; exact U_lt hvm
+  generalize hVd : U w (vlo ++ [v2, v1]) = V at *
+  intro c
+  induction c with
+  | zero =>
+    intro u q _ hu hq hlt hA
+    obtain ⟨qhi, rfl, hqhi⟩ := hq
+    simp only [loop]
+    refine ⟨?_, hu, by simpa using hlt, hA⟩
+    simpa [zero] using hqhi
+  | succ j ih =>
+    intro u q hc hu hq hlt hA
+    obtain ⟨qhi, rfl, hqhi⟩ := hq
+    obtain ⟨lo, wlo, x2, x1, x0, hi, rfl, hlo, hwlo, hx2, hx1, hx0, hhi⟩ :=
+      split_window (j := j) (n := n) hu (by omega) hn2
+    have hwin : WF w (n + 1) (wlo ++ [x2, x1, x0]) := by
+      have h3 : WF w 3 [x2, x1, x0] := ⟨rfl, by simp; exact ⟨hx2, hx1, hx0⟩⟩
+      have := WF_append hwlo h3
+      rwa [show n - 2 + 3 = n + 1 by omega] at this
+    have hUu : U w (lo ++ (wlo ++ [x2, x1, x0]) ++ hi)
+        = U w lo + B w ^ j * (U w (wlo ++ [x2, x1, x0]) + B w ^ (n + 1) * U w hi) := by
+      rw [U_append, U_append, List.length_append, hlo.1, hwin.1]; ring
+    have hlolt : U w lo < B w ^ j := by rw [pow_eq_M]; exact U_lt hlo
+    have hpj : 0 < B w ^ j := Nat.pow_pos hB
+    -- the window is below V·B, the digits above it vanish
+    have hWhi : U w (wlo ++ [x2, x1, x0]) + B w ^ (n + 1) * U w hi < V * B w := by
+      rw [hUu] at hlt
+      have e : V * B w ^ (j + 1) = B w ^ j * (V * B w) := by rw [Nat.pow_succ]; ring
+      rw [e] at hlt
+      exact Nat.lt_of_mul_lt_mul_left (a := B w ^ j) (by omega)
+    have hVB : V * B w < B w ^ (n + 1) := by
+      rw [Nat.pow_succ]; exact Nat.mul_lt_mul_of_pos_right hVlt hB
+    have hhi0 : U w hi = 0 := by
+      rcases Nat.eq_zero_or_pos (U w hi) with h | h
+      · exact h
+      · have : B w ^ (n + 1) * 1 ≤ B w ^ (n + 1) * U w hi := Nat.mul_le_mul_left _ h
+        omega
+    have hW : U w (wlo ++ [x2, x1, x0]) < V * B w := by omega
+    obtain ⟨win', hstep, hwin', hUwin'⟩ := step_spec (j := j) (hi := hi) (vz := vz) hw hn2 hlo.1
+      hwlo hvlo hx0 hx1 hx2 hv1 hv2 hvz hnorm (by rw [hVd]; exact hW)
+    rw [hVd] at hstep hUwin'
+    simp only [loop]
+    rw [hstep]
+    simp only
+    generalize hWd : U w (wlo ++ [x2, x1, x0]) = W at *
+    have hVpos : 0 < V := by
+      rcases Nat.eq_zero_or_pos V with h | h
+      · rw [h] at hW; omega
+      · exact h
+    have hdm := Nat.div_add_mod W V
+    have hml := Nat.mod_lt W hVpos
+    have hqd : W / V < B w := (Nat.div_lt_iff_lt_mul hVpos).mpr (by rw [Nat.mul_comm (B w) V]; exact hW)
+    -- the new quotient
+    have hqset : (zero (j + 1) ++ qhi).set j (W / V) = zero j ++ (W / V :: qhi) := by
+      rw [zero_succ, List.append_assoc, List.singleton_append]
+      have := set_append_cons (zero j) qhi 0 (W / V)
+      rwa [show (zero j).length = j by simp [zero]] at this
+    rw [hqset]
+    have hu' : WF w (N + 1) (lo ++ win' ++ hi) := by
+      have := WF_append (WF_append hlo hwin') hhi
+      rwa [show j + (n + 1) + (N + 1 - j - n - 1) = N + 1 by omega] at this
+    have hUu' : U w (lo ++ win' ++ hi) = U w lo + B w ^ j * (W % V) := by
+      rw [U_append, U_append, List.length_append, hlo.1, hwin'.1, hhi0, hUwin']; ring
+    apply ih (lo ++ win' ++ hi) (zero j ++ (W / V :: qhi)) (by omega) hu'
+    · refine ⟨W / V :: qhi, rfl, ?_⟩
+      have := WF_cons.mpr ⟨hqd, hqhi⟩
+      rwa [show N - (j + 1) + 1 = N - j by omega] at this
+    · rw [hUu']
+      have : B w ^ j * (W % V + 1) ≤ B w ^ j * V := Nat.mul_le_mul_left _ hml
+      rw [Nat.mul_add, Nat.mul_one] at this
+      rw [Nat.mul_comm V]; omega
+    · rw [hA, hUu, hUu', hhi0, U_zero_append, U_zero_append]
+      simp only [U_cons, Nat.mul_zero, Nat.add_zero]
+      have e1 : B w ^ (j + 1) * U w qhi * V = B w ^ j * (B w * U w qhi) * V := by
+        rw [Nat.pow_succ]; ring
+      have e2 : B w ^ j * (W / V + B w * U w qhi) * V
+          = B w ^ j * (V * (W / V)) + B w ^ j * (B w * U w qhi) * V := by ring
+      have e3 : B w ^ j * W = B w ^ j * (V * (W / V)) + B w ^ j * (W % V) := by
+        rw [← Nat.mul_add, hdm]
+      rw [e1, e2, e3]; omega
+
+
+
+
+/-! ### digit shifts -/
+
+theorem B_split {w s : Nat} (hs : s ≤ w) : B w = 2 ^ s * 2 ^ (w - s) := by
+  unfold B; rw [← Nat.pow_add]; congr 1; omega
+
+/-- `d << s` and `d >> (w - s)` split `d · 2^s` at the digit boundary -/
+theorem shl_split {w s d : Nat} (hs : s ≤ w) :
+    dshl w d s = 2 ^ s * (d % 2 ^ (w - s)) ∧ dshr d (w - s) = d / 2 ^ (w - s) ∧
+    d * 2 ^ s = d / 2 ^ (w - s) * B w + 2 ^ s * (d % 2 ^ (w - s)) := by
+  unfold dshl dshr
+  rw [Nat.shiftLeft_eq, Nat.shiftRight_eq_div_pow, B_split hs]
+  refine ⟨?_, rfl, ?_⟩
+  · rw [Nat.mul_comm d, Nat.mul_mod_mul_left]
+  · have := Nat.div_add_mod d (2 ^ (w - s))
+    calc d * 2 ^ s = (2 ^ (w - s) * (d / 2 ^ (w - s)) + d % 2 ^ (w - s)) * 2 ^ s := by rw [this]
+      _ = _ := by ring
+
+theorem or_eq_add {i a c : Nat} (hc : c < 2 ^ i) : 2 ^ i * a ||| c = 2 ^ i * a + c :=
+  (Nat.two_pow_add_eq_or_of_lt hc a).symm
+
+theorem leadingZeros_spec {w d : Nat} (hd0 : 0 < d) (hd : d < B w) :
+    leadingZeros w d < w ∧ B w ≤ 2 * (d * 2 ^ leadingZeros w d) ∧
+      d * 2 ^ leadingZeros w d < B w := by
+  unfold leadingZeros bitLen
+  rw [if_neg (by omega)]
+  have h1 : d.log2 < w := (Nat.log2_lt (by omega)).mpr hd
+  have h2 : 2 ^ d.log2 ≤ d := Nat.log2_self_le (by omega)
+  have h3 : d < 2 ^ (d.log2 + 1) := Nat.lt_log2_self
+  have e : B w = 2 ^ (d.log2 + 1) * 2 ^ (w - (d.log2 + 1)) := by
+    unfold B; rw [← Nat.pow_add]; congr 1; omega
+  have hp : 0 < 2 ^ (w - (d.log2 + 1)) := Nat.pow_pos (by decide)
+  refine ⟨by omega, ?_, ?_⟩
+  · rw [e, Nat.pow_succ]
+    have : 2 ^ d.log2 * 2 ^ (w - (d.log2 + 1)) ≤ d * 2 ^ (w - (d.log2 + 1)) :=
+      Nat.mul_le_mul_right _ h2
+    have e2 : 2 ^ d.log2 * 2 * 2 ^ (w - (d.log2 + 1)) = 2 * (2 ^ d.log2 * 2 ^ (w - (d.log2 + 1))) := by
+      ring
+    omega
+  · rw [e]; exact Nat.mul_lt_mul_of_pos_right h3 hp
+
+/-! ### D1: `unchecked_shl_internal` by less than one digit -/
+
+theorem shlBitsLoop_spec {w s : Nat} (hs : s < w) : ∀ (k : Nat) (x : List Nat) (c : Nat),
+    WF w k x → c < 2 ^ s →
+    WF w k (shlBitsLoop w s (w - s) x c) ∧
+    ∃ cout, U w (shlBitsLoop w s (w - s) x c) + B w ^ k * cout = U w x * 2 ^ s + c := by
+  intro k
+  induction k with
+  | zero =>
+    intro x c hx hc
+    have := hx.1; simp at this; subst this
+    exact ⟨WF_nil w, c, by simp [shlBitsLoop]⟩
+  | succ k ih =>
+    intro x c hx hc
+    obtain ⟨d, t, rfl, hd, ht⟩ := WF_uncons hx
+    obtain ⟨e1, e2, e3⟩ := shl_split (w := w) (s := s) (d := d) (by omega)
+    have hBs := B_split (w := w) (s := s) (by omega)
+    have hlo : d % 2 ^ (w - s) < 2 ^ (w - s) := Nat.mod_lt _ (Nat.pow_pos (by decide))
+    have hhi : d / 2 ^ (w - s) < 2 ^ s := by
+      rw [Nat.div_lt_iff_lt_mul (Nat.pow_pos (by decide))]; rw [← hBs]; exact hd
+    simp only [shlBitsLoop]
+    rw [e1, e2, or_eq_add hc]
+    obtain ⟨g1, cout, g2⟩ := ih t (d / 2 ^ (w - s)) ht hhi
+    have hdig : 2 ^ s * (d % 2 ^ (w - s)) + c < B w := by
+      have : 2 ^ s * (d % 2 ^ (w - s) + 1) ≤ 2 ^ s * 2 ^ (w - s) := Nat.mul_le_mul_left _ hlo
+      rw [Nat.mul_add, Nat.mul_one] at this
+      omega
+    refine ⟨WF_cons.mpr ⟨hdig, g1⟩, cout, ?_⟩
+    simp only [U_cons]
+    have : B w ^ (k + 1) * cout = B w * (B w ^ k * cout) := by rw [Nat.pow_succ]; ring
+    rw [this]
+    have : (d + B w * U w t) * 2 ^ s = d * 2 ^ s + B w * (U w t * 2 ^ s) := by ring
+    rw [this, e3]
+    have : B w * (U w (shlBitsLoop w s (w - s) t (d / 2 ^ (w - s))) + B w ^ k * cout)
+        = B w * (U w t * 2 ^ s + d / 2 ^ (w - s)) := by rw [g2]
+    rw [Nat.mul_add] at this
+    have e4 : B w * (U w t * 2 ^ s + d / 2 ^ (w - s)) = B w * (U w t * 2 ^ s) + d / 2 ^ (w - s) * B w := by
+      ring
+    omega
+
+theorem shl_spec {w L s : Nat} {x : List Nat} (hs : s < w) (hx : WF w L x)
+    (hfit : U w x * 2 ^ s < B w ^ L) :
+    WF w L (uncheckedShlInternal w x s) ∧ U w (uncheckedShlInternal w x s) = U w x * 2 ^ s := by
+  unfold uncheckedShlInternal
+  have h1 : s / w = 0 := Nat.div_eq_of_lt hs
+  have h2 : s % w = s := Nat.mod_eq_of_lt hs
+  simp only [h1, h2, Nat.zero_le, Nat.min_eq_left, List.replicate_zero, List.nil_append,
+    Nat.sub_zero, List.take_length]
+  by_cases h0 : s = 0
+  · subst h0; simp; exact hx
+  · have hne : (s != 0) = true := by simpa using h0
+    rw [if_pos hne]
+    obtain ⟨g1, cout, g2⟩ := shlBitsLoop_spec (w := w) hs L x 0 hx (Nat.pow_pos (by decide))
+    refine ⟨g1, ?_⟩
+    have hlt := U_lt g1
+    rw [← pow_eq_M] at hlt
+    rcases Nat.eq_zero_or_pos cout with h | h
+    · rw [h] at g2; omega
+    · have : B w ^ L * 1 ≤ B w ^ L * cout := Nat.mul_le_mul_left _ h
+      omega
+
+
+
+
+/-! ### `Remainder::new`: the dividend shifted left into `N + 1` digits -/
+
+/-- top-down loop of `unchecked_shr_pad_internal` by `w - s` bits, on `ds ++ [a0]` (most significant
+    first), together with the lowest digit `a0 << s` that `Remainder::new` puts in front -/
+theorem shrBitsLoop_spec {w s : Nat} (hs : s < w) : ∀ (k : Nat) (ds : List Nat)
+    (a0 c' : Nat), WF w k ds → a0 < B w → c' < 2 ^ (w - s) →
+    WF w (k + 1) (shrBitsLoop w (w - s) s (ds ++ [a0]) (2 ^ s * c')) ∧
+    dshl w a0 s + B w * U w (shrBitsLoop w (w - s) s (ds ++ [a0]) (2 ^ s * c')).reverse
+      = U w (a0 :: ds.reverse) * 2 ^ s + B w ^ (k + 1) * (2 ^ s * c') ∧
+    dshl w a0 s < B w := by
+  have hBs := B_split (w := w) (s := s) (by omega)
+  have hp1 : 0 < 2 ^ (w - s) := Nat.pow_pos (by decide)
+  have hp2 : 0 < 2 ^ s := Nat.pow_pos (by decide)
+  -- one output digit
+  have hdigit : ∀ d c', d < B w → c' < 2 ^ (w - s) →
+      (dshr d (w - s) ||| 2 ^ s * c') = 2 ^ s * c' + d / 2 ^ (w - s) ∧
+      2 ^ s * c' + d / 2 ^ (w - s) < B w ∧ d % 2 ^ (w - s) < 2 ^ (w - s) := by
+    intro d c' hd hc'
+    have hhi : d / 2 ^ (w - s) < 2 ^ s := by
+      rw [Nat.div_lt_iff_lt_mul hp1, ← hBs]; exact hd
+    refine ⟨?_, ?_, Nat.mod_lt _ hp1⟩
+    · unfold dshr; rw [Nat.shiftRight_eq_div_pow, Nat.or_comm, or_eq_add hhi]
+    · have : 2 ^ s * (c' + 1) ≤ 2 ^ s * 2 ^ (w - s) := Nat.mul_le_mul_left _ hc'
+      rw [Nat.mul_add, Nat.mul_one] at this
+      omega
+  intro k
+  induction k with
+  | zero =>
+    intro ds a0 c' hds ha0 hc'
+    have := hds.1; simp at this; subst this
+    obtain ⟨e1, e2, e3⟩ := shl_split (w := w) (s := s) (d := a0) (by omega)
+    obtain ⟨f1, f2, f3⟩ := hdigit a0 c' ha0 hc'
+    simp only [List.nil_append, shrBitsLoop, List.reverse_cons, List.reverse_nil, U_cons, U_nil]
+    rw [f1, e1]
+    refine ⟨WF_cons.mpr ⟨f2, WF_nil w⟩, ?_, ?_⟩
+    · simp only [Nat.mul_zero, Nat.add_zero, Nat.zero_add, Nat.pow_one]
+      rw [e3]; ring
+    · have : 2 ^ s * (a0 % 2 ^ (w - s) + 1) ≤ 2 ^ s * 2 ^ (w - s) := Nat.mul_le_mul_left _ f3
+      rw [Nat.mul_add, Nat.mul_one] at this
+      omega
+  | succ k ih =>
+    intro ds a0 c' hds ha0 hc'
+    obtain ⟨d, t, rfl, hd, ht⟩ := WF_uncons hds
+    obtain ⟨e1, e2, e3⟩ := shl_split (w := w) (s := s) (d := d) (by omega)
+    obtain ⟨f1, f2, f3⟩ := hdigit d c' hd hc'
+    simp only [List.cons_append, shrBitsLoop]
+    rw [f1, e1]
+    obtain ⟨g1, g2, g3⟩ := ih t a0 (d % 2 ^ (w - s)) ht ha0 f3
+    refine ⟨WF_cons.mpr ⟨f2, g1⟩, ?_, g3⟩
+    simp only [List.reverse_cons, U_append, U_cons, U_nil, List.length_reverse, g1.1,
+      ht.1] at g2 ⊢
+    generalize U w (shrBitsLoop w (w - s) s (t ++ [a0]) (2 ^ s * (d % 2 ^ (w - s)))).reverse = X at *
+    generalize U w t.reverse = T at *
+    generalize dshl w a0 s = L0 at *
+    simp only [Nat.mul_zero, Nat.add_zero] at g2 ⊢
+    have p1 : B w ^ (k + 1 + 1) = B w * B w ^ (k + 1) := by rw [Nat.pow_succ]; ring
+    have p2 : B w ^ (k + 1) = B w * B w ^ k := by rw [Nat.pow_succ]; ring
+    have e5 : (a0 + B w * (T + B w ^ k * d)) * 2 ^ s
+        = (a0 + B w * T) * 2 ^ s + B w ^ (k + 1) * (d * 2 ^ s) := by rw [p2]; ring
+    rw [e5, e3, p1]
+    have e6 : B w * (X + B w ^ (k + 1) * (2 ^ s * c' + d / 2 ^ (w - s)))
+        = B w * X + B w * B w ^ (k + 1) * (2 ^ s * c') + B w ^ (k + 1) * (d / 2 ^ (w - s) * B w) := by
+      ring
+    have e7 : B w ^ (k + 1) * (d / 2 ^ (w - s) * B w + 2 ^ s * (d % 2 ^ (w - s)))
+        = B w ^ (k + 1) * (d / 2 ^ (w - s) * B w) + B w ^ (k + 1) * (2 ^ s * (d % 2 ^ (w - s))) := by
+      ring
+    rw [e6, e7]
+    omega
+
+
+
+
+theorem WF_rev {w n : Nat} {x : List Nat} (h : WF w n x) : WF w n x.reverse :=
+  ⟨by simpa using h.1, fun d hd => h.2 d (by simpa using hd)⟩
+
+theorem remNew_spec {w N s : Nat} {a : List Nat} (hw : 1 ≤ w) (hN : 2 ≤ N) (hs : s < w)
+    (ha : WF w N a) :
+    WF w (N + 1) (remNew w a s) ∧ U w (remNew w a s) = U w a * 2 ^ s := by
+  obtain ⟨a0, t, rfl, ha0, ht⟩ := WF_uncons (L := N - 1) (by rwa [show N - 1 + 1 = N by omega])
+  have hB := B_pos w
+  have hbits : ¬ (w - s ≥ w * (a0 :: t).length) := by
+    have hl : (a0 :: t).length = N := ha.1
+    rw [hl]
+    have : w * 2 ≤ w * N := Nat.mul_le_mul_left _ hN
+    omega
+  unfold remNew wrappingShr overflowingShr
+  simp only [hbits, if_false, List.headD_cons]
+  unfold uncheckedShrInternal
+  by_cases h0 : s = 0
+  · subst h0
+    have e1 : (w - 0) / w = 1 := by simp; exact Nat.div_self (by omega)
+    have e2 : (w - 0) % w = 0 := by simp
+    simp only [e1, e2, bne_self_eq_false, Bool.false_eq_true, if_false, List.drop_succ_cons,
+      List.drop_zero]
+    have hl : (a0 :: t).length = N := ha.1
+    rw [hl, Nat.min_eq_left (by omega)]
+    have hd : dshl w a0 0 = a0 := by
+      unfold dshl; simp [Nat.mod_eq_of_lt ha0]
+    rw [hd]
+    refine ⟨?_, ?_⟩
+    · have := WF_cons.mpr ⟨ha0, WF_append ht (⟨rfl, by simp [hB]⟩ : WF w 1 (List.replicate 1 0))⟩
+      rwa [show N - 1 + 1 + 1 = N + 1 by omega] at this
+    · simp [U_append]
+  · have e1 : (w - s) / w = 0 := Nat.div_eq_of_lt (by omega)
+    have e2 : (w - s) % w = w - s := Nat.mod_eq_of_lt (by omega)
+    have hne : ((w - s) != 0) = true := by simp; omega
+    have e3 : w - (w - s) = s := by omega
+    simp only [e1, e2, hne, if_true, List.drop_zero, Nat.zero_le, Nat.min_eq_left,
+      List.replicate_zero, List.append_nil, e3, List.reverse_cons]
+    obtain ⟨g1, g2, g3⟩ := shrBitsLoop_spec (w := w) (s := s) hs (N - 1) t.reverse a0 0
+      (WF_rev ht) ha0 (Nat.pow_pos (by decide))
+    simp only [Nat.mul_zero, Nat.add_zero, List.reverse_reverse] at g1 g2
+    rw [show N - 1 + 1 = N by omega] at g1
+    refine ⟨WF_cons.mpr ⟨g3, WF_rev g1⟩, ?_⟩
+    rw [U_cons]; exact g2
+
+/-! ### D8: `Remainder::shr` -/
+
+/-- `Remainder::shr` as one fused pass -/
+def shrAux (w s : Nat) : List Nat → List Nat
+  | x :: y :: rest => (dshr x s ||| dshl w y (w - s)) :: shrAux w s (y :: rest)
+  | _ => []
+
+theorem remShr_eq_aux (w s : Nat) (hs : 0 < s) : ∀ (u : List Nat), remShr w u s = shrAux w s u
+  | [] => by simp [remShr, shrAux]
+  | [x] => by simp [remShr, shrAux]
+  | x :: y :: rest => by
+    have ih := remShr_eq_aux w s hs (y :: rest)
+    unfold remShr at ih ⊢
+    simp only [hs, if_true, List.length_cons, Nat.add_sub_cancel, List.drop_succ_cons,
+      List.drop_zero, List.take_succ_cons, List.map_cons, List.zipWith_cons_cons, shrAux] at ih ⊢
+    rw [ih]
+
+theorem shrAux_spec {w s : Nat} (hs0 : 0 < s) (hs : s < w) : ∀ (k : Nat) (x : Nat) (rest : List Nat),
+    x < B w → WF w k rest →
+    WF w k (shrAux w s (x :: rest)) ∧
+    2 ^ s * U w (shrAux w s (x :: rest)) + x % 2 ^ s
+        + B w ^ k * (2 ^ s * ((x :: rest).getLast (by simp) / 2 ^ s))
+      = U w (x :: rest) := by
+  have hBs := B_split (w := w) (s := w - s) (by omega)
+  have hsub : w - (w - s) = s := by omega
+  rw [hsub] at hBs
+  have hp1 : 0 < 2 ^ (w - s) := Nat.pow_pos (by decide)
+  have hp2 : 0 < 2 ^ s := Nat.pow_pos (by decide)
+  intro k
+  induction k with
+  | zero =>
+    intro x rest hx hr
+    have := hr.1; simp at this; subst this
+    simp only [shrAux, U_cons, U_nil, List.getLast_singleton]
+    refine ⟨WF_nil w, ?_⟩
+    have := Nat.div_add_mod x (2 ^ s)
+    simp; omega
+  | succ k ih =>
+    intro x rest hx hr
+    obtain ⟨y, t, rfl, hy, ht⟩ := WF_uncons hr
+    obtain ⟨g1, g2⟩ := ih y t hy ht
+    obtain ⟨e1, -, -⟩ := shl_split (w := w) (s := w - s) (d := y) (by omega)
+    rw [hsub] at e1
+    have hhi : x / 2 ^ s < 2 ^ (w - s) := by
+      rw [Nat.div_lt_iff_lt_mul hp2, ← hBs]; exact hx
+    have hlo : y % 2 ^ s < 2 ^ s := Nat.mod_lt _ hp2
+    simp only [shrAux]
+    have hd : (dshr x s ||| dshl w y (w - s)) = 2 ^ (w - s) * (y % 2 ^ s) + x / 2 ^ s := by
+      unfold dshr; rw [Nat.shiftRight_eq_div_pow, e1, Nat.or_comm, or_eq_add hhi]
+    rw [hd]
+    have hdlt : 2 ^ (w - s) * (y % 2 ^ s) + x / 2 ^ s < B w := by
+      have : 2 ^ (w - s) * (y % 2 ^ s + 1) ≤ 2 ^ (w - s) * 2 ^ s := Nat.mul_le_mul_left _ hlo
+      rw [Nat.mul_add, Nat.mul_one] at this
+      omega
+    refine ⟨WF_cons.mpr ⟨hdlt, g1⟩, ?_⟩
+    rw [List.getLast_cons (by simp)]
+    simp only [U_cons] at g2 ⊢
+    generalize U w (shrAux w s (y :: t)) = X at *
+    generalize (y :: t).getLast (by simp) / 2 ^ s = Lq at *
+    have hx' := Nat.div_add_mod x (2 ^ s)
+    have p1 : B w ^ (k + 1) = B w * B w ^ k := by rw [Nat.pow_succ]; ring
+    rw [p1]
+    have e5 : 2 ^ s * (2 ^ (w - s) * (y % 2 ^ s) + x / 2 ^ s + B w * X)
+        = B w * (y % 2 ^ s) + 2 ^ s * (x / 2 ^ s) + B w * (2 ^ s * X) := by
+      rw [hBs]; ring
+    have e6 : B w * B w ^ k * (2 ^ s * Lq) = B w * (B w ^ k * (2 ^ s * Lq)) := by ring
+    rw [e5, e6]
+    have e7 : B w * (2 ^ s * X + y % 2 ^ s + B w ^ k * (2 ^ s * Lq)) = B w * (y + B w * U w t) := by
+      rw [g2]
+    rw [Nat.mul_add, Nat.mul_add] at e7
+    omega
+
+theorem remShr_spec {w N s : Nat} {u : List Nat} (hs : s < w) (hu : WF w (N + 1) u)
+    (htop : U w u < B w ^ N) :
+    WF w N (remShr w u s) ∧ U w (remShr w u s) = U w u / 2 ^ s := by
+  have hB := B_pos w
+  obtain ⟨ulo, t, rfl, hulo, ht⟩ := exists_snoc hu
+  have ht0 : t = 0 := by
+    rw [U_append, hulo.1] at htop
+    simp only [U_cons, U_nil, Nat.mul_zero, Nat.add_zero] at htop
+    rcases Nat.eq_zero_or_pos t with h | h
+    · exact h
+    · have : B w ^ N * 1 ≤ B w ^ N * t := Nat.mul_le_mul_left _ h
+      omega
+  subst ht0
+  have hU : U w (ulo ++ [0]) = U w ulo := by rw [U_append]; simp
+  by_cases h0 : s = 0
+  · subst h0
+    have e : remShr w (ulo ++ [0]) 0 = ulo := by
+      unfold remShr; simp [dshr]
+    rw [e, hU]; simp; exact hulo
+  · rw [remShr_eq_aux w s (by omega)]
+    match ulo, hulo with
+    | [], hulo =>
+      have : N = 0 := by simpa using hulo.1.symm
+      subst this
+      simp [shrAux, WF_nil]
+    | x :: rest, hulo =>
+      obtain ⟨k, rfl⟩ : ∃ k, N = k + 1 := ⟨N - 1, by have := hulo.1; simp at this; omega⟩
+      have hx : x < B w := (WF_cons.mp hulo).1
+      have hr : WF w k rest := (WF_cons.mp hulo).2
+      have hr' : WF w (k + 1) (rest ++ [0]) := WF_append hr ⟨rfl, by simp [hB]⟩
+      obtain ⟨g1, g2⟩ := shrAux_spec (w := w) (s := s) (by omega) hs (k + 1) x (rest ++ [0]) hx hr'
+      have hlast : (x :: (rest ++ [0])).getLast (by simp) = 0 := by
+        rw [List.getLast_cons (by simp), List.getLast_append_singleton]
+      rw [hlast] at g2
+      simp only [Nat.zero_div, Nat.mul_zero, Nat.add_zero] at g2
+      rw [List.cons_append]
+      refine ⟨g1, ?_⟩
+      have hp2 : 0 < 2 ^ s := Nat.pow_pos (by decide)
+      have hml := Nat.mod_lt x hp2
+      rw [← g2]
+      rw [Nat.mul_add_div hp2, Nat.div_eq_of_lt hml]; simp
+
+
+
+
+/-! ### `last_digit_index` -/
+
+theorem go_val {w : Nat} : ∀ (ds : List Nat) (i idx : Nat), idx < i → (∀ d ∈ ds, d < B w) →
+    (lastDigitIndex.go ds i idx = idx ∧ U w ds = 0) ∨
+    (i ≤ lastDigitIndex.go ds i idx ∧ lastDigitIndex.go ds i idx < i + ds.length ∧
+      B w ^ (lastDigitIndex.go ds i idx - i) ≤ U w ds ∧
+      U w ds < B w ^ (lastDigitIndex.go ds i idx - i + 1))
+  | [], i, idx, _, _ => by simp [lastDigitIndex.go]
+  | d :: ds, i, idx, hidx, hds => by
+    have hB := B_pos w
+    have hd : d < B w := hds d (by simp)
+    simp only [lastDigitIndex.go]
+    have ih := go_val (w := w) ds (i + 1) (if d != 0 then i else idx)
+      (by split <;> omega) (fun e he => hds e (by simp [he]))
+    generalize lastDigitIndex.go ds (i + 1) (if d != 0 then i else idx) = r at *
+    rcases ih with ⟨h1, h2⟩ | ⟨h1, h2, h3, h4⟩
+    · by_cases hd0 : d = 0
+      · subst hd0
+        left; simp at h1; simp [h1, h2]
+      · right
+        have : (d != 0) = true := by simpa using hd0
+        simp only [this, if_true] at h1
+        subst h1
+        simp [h2]; omega
+    · right
+      refine ⟨by omega, by simp; omega, ?_, ?_⟩
+      · simp only [U_cons]
+        have e : r - i = (r - (i + 1)) + 1 := by omega
+        rw [e, Nat.pow_succ]
+        have : B w ^ (r - (i + 1)) * B w ≤ U w ds * B w := Nat.mul_le_mul_right _ h3
+        rw [Nat.mul_comm (U w ds)] at this
+        omega
+      · simp only [U_cons]
+        have e : r - i + 1 = (r - (i + 1) + 1) + 1 := by omega
+        rw [e, Nat.pow_succ]
+        have : (U w ds + 1) * B w ≤ B w ^ (r - (i + 1) + 1) * B w := Nat.mul_le_mul_right _ h4
+        rw [Nat.add_mul, Nat.one_mul, Nat.mul_comm (U w ds)] at this
+        omega
+
+/-- value characterisation of `last_digit_index` -/
+theorem ldi_val {w N : Nat} {x : List Nat} (hN : 1 ≤ N) (hx : WF w N x) :
+    lastDigitIndex x < N ∧ U w x < B w ^ (lastDigitIndex x + 1) ∧
+    (lastDigitIndex x ≠ 0 → B w ^ lastDigitIndex x ≤ U w x) := by
+  obtain ⟨d, ds, rfl, hd, hds⟩ := WF_uncons (L := N - 1) (by rwa [show N - 1 + 1 = N by omega])
+  have hB := B_pos w
+  unfold lastDigitIndex
+  simp only
+  have h := go_val (w := w) ds 1 0 (by omega) hds.2
+  generalize lastDigitIndex.go ds 1 0 = r at *
+  rcases h with ⟨h1, h2⟩ | ⟨h1, h2, h3, h4⟩
+  · subst h1
+    simp [U_cons, h2]; omega
+  · rw [hds.1] at h2
+    refine ⟨by omega, ?_, ?_⟩
+    · simp only [U_cons]
+      have e : r + 1 = (r - 1 + 1) + 1 := by omega
+      rw [e, Nat.pow_succ]
+      have : (U w ds + 1) * B w ≤ B w ^ (r - 1 + 1) * B w := Nat.mul_le_mul_right _ h4
+      rw [Nat.add_mul, Nat.one_mul, Nat.mul_comm (U w ds)] at this
+      omega
+    · intro _
+      simp only [U_cons]
+      have e : r = (r - 1) + 1 := by omega
+      rw [e, Nat.pow_succ]
+      have : B w ^ (r - 1) * B w ≤ U w ds * B w := Nat.mul_le_mul_right _ h3
+      rw [Nat.mul_comm (U w ds)] at this
+      omega
+
+theorem all_zero_of_U {w : Nat} : ∀ (x : List Nat), U w x = 0 → ∀ d ∈ x, d = 0
+  | [], _ => by simp
+  | d :: ds, h => by
+    have hB := B_pos w
+    simp only [U_cons] at h
+    have h1 : d = 0 := by omega
+    have h2 : U w ds = 0 := by
+      rcases Nat.eq_zero_or_pos (U w ds) with h0 | h0
+      · exact h0
+      · have : B w * 1 ≤ B w * U w ds := Nat.mul_le_mul_left _ h0
+        omega
+    intro e he
+    rcases List.mem_cons.mp he with rfl | he
+    · exact h1
+    · exact all_zero_of_U ds h2 e he
+
+/-- a number below `B^n` with `n ≥ 2`, cut at its two leading digits -/
+theorem split_top {w L n : Nat} {x : List Nat} (hx : WF w L x) (hn2 : 2 ≤ n) (hnL : n ≤ L)
+    (hlt : U w x < B w ^ n) :
+    ∃ lo d2 d1 z, x = (lo ++ [d2, d1]) ++ z ∧ WF w (n - 2) lo ∧ d2 < B w ∧ d1 < B w ∧
+      (∀ d ∈ z, d = 0) ∧ n + z.length = L ∧
+      x.getD (n - 1) 0 = d1 ∧ x.getD (n - 2) 0 = d2 := by
+  have h1 := WF_take hx (n - 2) (by omega)
+  have h2 := WF_drop hx (n - 2)
+  obtain ⟨d2, t2, e2, hd2, ht2⟩ := WF_uncons (w := w) (L := L - (n - 2) - 1)
+    (x := x.drop (n - 2)) (by rwa [show L - (n - 2) - 1 + 1 = L - (n - 2) by omega])
+  obtain ⟨d1, t1, e1, hd1, ht1⟩ := WF_uncons (w := w) (L := L - n)
+    (x := t2) (by rwa [show L - n + 1 = L - (n - 2) - 1 by omega])
+  have hxe : x = (x.take (n - 2) ++ [d2, d1]) ++ t1 := by
+    conv_lhs => rw [← List.take_append_drop (n - 2) x, e2, e1]
+    simp
+  have hz : U w t1 = 0 := by
+    have hU : U w x = U w (x.take (n - 2) ++ [d2, d1]) + B w ^ n * U w t1 := by
+      conv_lhs => rw [hxe]
+      rw [U_append, List.length_append, h1.1]
+      simp only [List.length_cons, List.length_nil]
+      rw [show n - 2 + (0 + 1 + 1) = n by omega]
+    rcases Nat.eq_zero_or_pos (U w t1) with h | h
+    · exact h
+    · have : B w ^ n * 1 ≤ B w ^ n * U w t1 := Nat.mul_le_mul_left _ h
+      omega
+  refine ⟨x.take (n - 2), d2, d1, t1, hxe, h1, hd2, hd1, all_zero_of_U t1 hz, ?_, ?_, ?_⟩
+  · rw [ht1.1]; omega
+  · rw [hxe, List.append_assoc]
+    have := getD_append_add (x.take (n - 2)) ([d2, d1] ++ t1) 1
+    rw [h1.1, show n - 2 + 1 = n - 1 by omega] at this
+    rw [this]; rfl
+  · rw [hxe, List.append_assoc]
+    have := getD_append_add (x.take (n - 2)) ([d2, d1] ++ t1) 0
+    rw [h1.1, Nat.add_zero] at this
+    rw [this]; rfl
+
+
+
+
+theorem final_arith {a b q r p : Nat} (hp : 0 < p) (h : a * p = q * (b * p) + r)
+    (hr : r < b * p) : q = a / b ∧ r / p = a % b := by
+  have h1 : q * b * p ≤ a * p := by
+    have : q * (b * p) = q * b * p := by ring
+    omega
+  have hqb : q * b ≤ a := Nat.le_of_mul_le_mul_right h1 hp
+  have hr' : r = (a - q * b) * p := by
+    rw [Nat.sub_mul]
+    have : q * (b * p) = q * b * p := by ring
+    omega
+  have hlt : a - q * b < b := by
+    rw [hr'] at hr
+    exact Nat.lt_of_mul_lt_mul_right hr
+  have hdiv : r / p = a - q * b := by rw [hr']; exact Nat.mul_div_cancel _ hp
+  have hb : 0 < b := by omega
+  have := (Nat.div_mod_unique hb (a := a) (c := a - q * b) (d := q)).mpr
+    ⟨by rw [Nat.mul_comm b q]; omega, hlt⟩
+  rw [hdiv]; exact ⟨this.1.symm, this.2.symm⟩
+
+theorem zero_split (N c : Nat) (hc : c ≤ N) : zero N = zero c ++ zero (N - c) := by
+  unfold zero
+  rw [← List.replicate_add]; congr 1; omega
+
+/-- **Algorithm D is correct** (for every digit width `w ≥ 1`) -/
+theorem knuthD_correct {w : Nat} (hw : 1 ≤ w) : KnuthD_correct w := by
+  intro N a b ha hb hl hgt
+  have hB := B_pos w
+  have hBe := B_even hw
+  have hN1 : 1 ≤ N := by
+    rcases Nat.eq_zero_or_pos N with h | h
+    · subst h
+      have := hb.1; simp at this; subst this
+      exact absurd rfl hl
+    · exact h
+  obtain ⟨lb1, lb2, lb3⟩ := ldi_val hN1 hb
+  obtain ⟨la1, la2, -⟩ := ldi_val hN1 ha
+  have lb3 := lb3 hl
+  have hla : lastDigitIndex b ≤ lastDigitIndex a := by
+    by_contra hc
+    have : B w ^ (lastDigitIndex a + 1) ≤ B w ^ lastDigitIndex b :=
+      Nat.pow_le_pow_right hB (by omega)
+    omega
+  generalize hn : lastDigitIndex b + 1 = n at *
+  have hn2 : 2 ≤ n := by omega
+  have hnN : n ≤ N := by omega
+  have hn1 : lastDigitIndex b = n - 1 := by omega
+  rw [hn1] at lb3
+  -- the leading digit of the divisor
+  obtain ⟨blo, d2, d1, bz, hbe, hblo, hd2, hd1, hbz, hblen, hg1, -⟩ :=
+    split_top hb hn2 hnN lb2
+  have hP : 0 < B w ^ (n - 2) := Nat.pow_pos hB
+  have hpn1 : B w ^ (n - 1) = B w ^ (n - 2) * B w := by
+    rw [← Nat.pow_succ]; congr 1; omega
+  have hpn : B w ^ n = B w ^ (n - 1) * B w := by
+    rw [← Nat.pow_succ]; congr 1; omega
+  have hUb : U w b = U w blo + B w ^ (n - 2) * (d2 + B w * d1) := by
+    rw [hbe, U_append, U_all_zero bz hbz, U_append, hblo.1]; simp
+  have hblolt : U w blo < B w ^ (n - 2) := by rw [pow_eq_M]; exact U_lt hblo
+  have hUb_lo : B w ^ (n - 1) * d1 ≤ U w b := by
+    rw [hUb, hpn1]
+    have : B w ^ (n - 2) * (d2 + B w * d1) = B w ^ (n - 2) * d2 + B w ^ (n - 2) * B w * d1 := by ring
+    omega
+  have hUb_hi : U w b < B w ^ (n - 1) * (d1 + 1) := by
+    rw [hUb, hpn1]
+    have e1 : B w ^ (n - 2) * (d2 + B w * d1) = B w ^ (n - 2) * d2 + B w ^ (n - 2) * B w * d1 := by ring
+    have e2 : B w ^ (n - 2) * B w * (d1 + 1) = B w ^ (n - 2) * B w * d1 + B w ^ (n - 2) * B w := by ring
+    have e3 : B w ^ (n - 2) * (d2 + 1) ≤ B w ^ (n - 2) * B w := Nat.mul_le_mul_left _ hd2
+    rw [Nat.mul_add, Nat.mul_one] at e3
+    omega
+  have hd1pos : 0 < d1 := by
+    rcases Nat.eq_zero_or_pos d1 with h | h
+    · rw [h] at hUb_hi; omega
+    · exact h
+  obtain ⟨hs, hs1, hs2⟩ := leadingZeros_spec hd1pos hd1
+  -- guards
+  unfold basecaseDivRem
+  rw [ha.1]
+  have hguard : ¬ (n < 2 ∨ N < n ∨ lastDigitIndex a + 1 < n) := by omega
+  rw [if_neg hguard]
+  dsimp only
+  rw [hg1]
+  generalize hsd : leadingZeros w d1 = s at *
+  have hp2 : 0 < 2 ^ s := Nat.pow_pos (by decide)
+  -- D1: normalise
+  have hd1s : (d1 + 1) * 2 ^ s ≤ B w := by
+    have hBs := B_split (w := w) (s := s) (by omega)
+    have : d1 < 2 ^ (w - s) := by
+      by_contra hc
+      have : 2 ^ (w - s) * 2 ^ s ≤ d1 * 2 ^ s := Nat.mul_le_mul_right _ (by omega)
+      rw [Nat.mul_comm (2 ^ (w - s))] at this
+      omega
+    have : (d1 + 1) * 2 ^ s ≤ 2 ^ (w - s) * 2 ^ s := Nat.mul_le_mul_right _ this
+    rw [Nat.mul_comm (2 ^ (w - s))] at this
+    omega
+  have hVhi : U w b * 2 ^ s < B w ^ n := by
+    have h1 : U w b * 2 ^ s < B w ^ (n - 1) * (d1 + 1) * 2 ^ s := Nat.mul_lt_mul_of_pos_right hUb_hi hp2
+    have h2 : B w ^ (n - 1) * (d1 + 1) * 2 ^ s = B w ^ (n - 1) * ((d1 + 1) * 2 ^ s) := by ring
+    have h3 : B w ^ (n - 1) * ((d1 + 1) * 2 ^ s) ≤ B w ^ (n - 1) * B w := Nat.mul_le_mul_left _ hd1s
+    omega
+  have hVlo : B w ^ n ≤ 2 * (U w b * 2 ^ s) := by
+    have h1 : B w ^ (n - 1) * d1 * 2 ^ s ≤ U w b * 2 ^ s := Nat.mul_le_mul_right _ hUb_lo
+    have h2 : B w ^ (n - 1) * d1 * 2 ^ s = B w ^ (n - 1) * (d1 * 2 ^ s) := by ring
+    have h3 : B w ^ (n - 1) * B w ≤ B w ^ (n - 1) * (2 * (d1 * 2 ^ s)) := Nat.mul_le_mul_left _ hs1
+    have h4 : B w ^ (n - 1) * (2 * (d1 * 2 ^ s)) = 2 * (B w ^ (n - 1) * (d1 * 2 ^ s)) := by ring
+    omega
+  have hpN : B w ^ n ≤ B w ^ N := Nat.pow_le_pow_right hB hnN
+  obtain ⟨hv, hUv⟩ := shl_spec (w := w) (L := N) (s := s) hs hb (by omega)
+  generalize uncheckedShlInternal w b s = v at *
+  obtain ⟨vlo, v2, v1, vz, hve, hvlo, hv2, hv1, hvz, hvlen, hgv1, hgv2⟩ :=
+    split_top hv hn2 hnN (by rw [hUv]; exact hVhi)
+  rw [hgv1, hgv2]
+  have hVe : U w v = U w (vlo ++ [v2, v1]) := by
+    rw [hve, U_append, U_all_zero vz hvz]; simp
+  have hvlolt : U w vlo < B w ^ (n - 2) := by rw [pow_eq_M]; exact U_lt hvlo
+  have hVtop := U_vtop w vlo v2 v1
+  rw [hvlo.1] at hVtop
+  have hnorm : B w ≤ 2 * v1 := by
+    have hV : U w v < B w ^ (n - 1) * (v1 + 1) := by
+      rw [hVe, hVtop, hpn1]
+      have e1 : (v1 * B w + v2) * B w ^ (n - 2) = B w ^ (n - 2) * v2 + B w ^ (n - 2) * B w * v1 := by ring
+      have e2 : B w ^ (n - 2) * B w * (v1 + 1) = B w ^ (n - 2) * B w * v1 + B w ^ (n - 2) * B w := by ring
+      have e3 : B w ^ (n - 2) * (v2 + 1) ≤ B w ^ (n - 2) * B w := Nat.mul_le_mul_left _ hv2
+      rw [Nat.mul_add, Nat.mul_one] at e3
+      omega
+    rw [← hUv] at hVlo
+    have h1 : B w ^ (n - 1) * B w < B w ^ (n - 1) * (2 * (v1 + 1)) := by
+      have : B w ^ (n - 1) * (2 * (v1 + 1)) = 2 * (B w ^ (n - 1) * (v1 + 1)) := by ring
+      omega
+    have := Nat.lt_of_mul_lt_mul_left h1
+    omega
+  -- the shifted dividend
+  obtain ⟨hu0, hUu0⟩ := remNew_spec (w := w) (N := N) (s := s) hw (by omega) hs ha
+  generalize remNew w a s = u0 at *
+  -- D2–D7
+  have hc : lastDigitIndex a + 1 - n + 1 ≤ N := by omega
+  have hloop := loop_spec (w := w) (n := n) (N := N) hw hn2 hvlo hv1 hv2 hvz hnorm (U w a * 2 ^ s)
+    (lastDigitIndex a + 1 - n + 1) u0 (zero N) (by omega) hu0
+    ⟨zero (N - (lastDigitIndex a + 1 - n + 1)), zero_split N _ hc, WF_zero w _⟩
+    (by
+      rw [← hVe, hUv, hUu0]
+      have e0 : lastDigitIndex a + 1 = (lastDigitIndex a + 1 - n + 1) + (n - 1) := by omega
+      have h1 : U w a * 2 ^ s < B w ^ (lastDigitIndex a + 1) * 2 ^ s := Nat.mul_lt_mul_of_pos_right la2 hp2
+      rw [e0, Nat.pow_add] at h1
+      have h2 : B w ^ (n - 1) * 2 ^ s * B w ^ (lastDigitIndex a + 1 - n + 1)
+          ≤ U w b * 2 ^ s * B w ^ (lastDigitIndex a + 1 - n + 1) :=
+        Nat.mul_le_mul_right _ (Nat.mul_le_mul_right _ lb3)
+      have e1 : B w ^ (lastDigitIndex a + 1 - n + 1) * B w ^ (n - 1) * 2 ^ s
+          = B w ^ (n - 1) * 2 ^ s * B w ^ (lastDigitIndex a + 1 - n + 1) := by ring
+      omega)
+    (by rw [U_zero, hUu0]; simp)
+  rw [← hve] at hloop
+  generalize loop w n v v1 v2 (lastDigitIndex a + 1 - n + 1) u0 (zero N) = res at *
+  obtain ⟨hq, hu, hult, hA⟩ := hloop
+  rw [← hVe, hUv] at hult hA
+  -- D8
+  obtain ⟨hr, hUr⟩ := remShr_spec (w := w) (N := N) (s := s) hs hu (by omega)
+  obtain ⟨f1, f2⟩ := final_arith hp2 hA hult
+  exact ⟨res.2, remShr w res.1 s, rfl, hq, hr, f1, by rw [hUr]; exact f2⟩
+
+
 end KDL
 end Bnum
